@@ -124,7 +124,10 @@ def gen_fault(rng, data, nsec):
                 'value': rng.choice(['1', 'x', 'utf-8', 'json', '0']),
                 'pos': rng.below(3)}
     elif k < 15:
-        key = rng.choice(sorted(HOSTILE))
+        # (the options the reader acts on weigh more than the ones it only
+        # carries along)
+        key = rng.choice(sorted(HOSTILE) + ['length'] * 4 +
+                         ['indent', 'encoding', 'line_endings'])
         f = {'kind': 'set_opt', 'section': rng.below(max(1, nsec)),
              'key': key}
 
